@@ -10,9 +10,10 @@ Mk(fam, never, b) ==
    fallible |-> FALSE, group |-> FALSE, never |-> never, x |-> -1, conts |-> <<"x">>] @@ b
 
 Fams == {"wait_until", "wait_until_stream"}
-CfgsQuick == {Mk(f, <<>>, B(FALSE, 2, 2, 2, 1, 1, 1, TRUE, TRUE)) : f \in Fams}
+CfgsQuick == {[reuse |-> TRUE] @@ Mk(f, <<>>, B(FALSE, 1, 1, 1, 0, 1, 0, FALSE, FALSE)) : f \in Fams} \cup
+             {Mk(f, <<>>, B(FALSE, 2, 2, 2, 1, 1, 1, TRUE, TRUE)) : f \in Fams}
              \cup {Mk(f, nv, B(FALSE, 1, 1, 1, 0, 1, 1, FALSE, FALSE)) : f \in Fams, nv \in {<<0>>, <<1>>}}
-CfgsThorough == {Mk(f, nv, B(FALSE, 3, 2, 3, 1, 2, 2, TRUE, TRUE)) : f \in Fams, nv \in {<<>>, <<0>>, <<1>>}}
+CfgsThorough == CfgsQuick \cup {Mk(f, nv, B(FALSE, 3, 2, 3, 1, 2, 2, TRUE, TRUE)) : f \in Fams, nv \in {<<>>, <<0>>, <<1>>}}
 CfgsGenQ == {Mk(f, <<>>, B(TRUE, 2, 1, 2, 1, 1, 1, TRUE, TRUE)) : f \in Fams}
             \cup {Mk(f, nv, B(TRUE, 1, 1, 1, 0, 1, 1, FALSE, FALSE)) : f \in Fams, nv \in {<<0>>, <<1>>}}
 CfgsGen == {Mk(f, <<>>, B(TRUE, 3, 2, 3, 1, 2, 2, TRUE, TRUE)) : f \in Fams}
